@@ -40,6 +40,25 @@ TABLE = {
 WILD = {"wc_int": ("int", [("obj:", ":priority"), ("obj_", "_priority")]), "wc_dbl": ("dbl", [("obj:", ":weight"), ("obj_", "_weight")])}
 UNKNOWN = ["bogus", "lim:itr", "iterlimx", "obj:priority", "tech:", "x", "timelim2", "obj:*:priority", "ITER_LIM"]
 
+
+def near_misses():
+    """Names one edit away from a registered name or synonym that are not registered themselves: every proper prefix, one character
+    appended, one character dropped. The registered names come from the registry's own listing (opt_shim --names), so built-in
+    options are covered too."""
+    out = subprocess.run([BIN, "--names"], env=common.env_with(), stdout=subprocess.PIPE, text=True).stdout.split()
+    known = {n.lower() for n in out} | {"outofline_gap"}
+    plain = sorted(n for n in known if "*" not in n)
+    cand = set()
+    for n in plain:
+        cand.update(n[:k] for k in range(1, len(n)))
+        cand.update(n + c for c in "sx2_")
+        cand.update(n[:k] + n[k + 1:] for k in range(len(n)))
+
+    def wild(c):
+        return any(c.startswith(h) and c.endswith(t) and len(c) >= len(h) + len(t) for _, forms in WILD.values() for h, t in forms)
+    return sorted(c for c in cand if c and c not in known and not wild(c) and not c.isdigit())
+
+NEAR = []        # filled by run() before the workers start
 _proc = {}
 
 
@@ -149,6 +168,8 @@ def item(draw, source):
         return name + sep + str(v), ("overflow", canon, v), False
     if kind == "unknown":
         name = draw(st.sampled_from(UNKNOWN))
+        if NEAR and draw(st.booleans()):
+            name = vary_case(draw, draw(st.sampled_from(NEAR)))
         val = draw(st.sampled_from(["5", "-1", "0.5", "1e3"]))
         return name + "=" + val, ("unknown", name, val), False
     canon = draw(st.sampled_from(sorted(TABLE)))
@@ -344,7 +365,9 @@ def check(case, res):
 
 def run(ctx):
     common.build("build/prod/opt_shim", "build/fuzz/fuzz_opts")
+    NEAR[:] = near_misses()
     res = hyp.run_property(ctx, cases(), check, ctx.pick(16000, 200000))
+    res.extra["unknown_near_miss_names"] = len(NEAR)
     import glob
     for f in sorted(glob.glob(os.path.join(common.ROOT, "regress", ctx.pid, "*.json"))):
         case = json.load(open(f))
